@@ -62,6 +62,12 @@ func init() {
 	// ---------------- harness runtime ----------------
 	reg(vfrtPath+".Symbolic", func(in *Exec, _ *frame, a []value) value { return in.tb.True })
 	reg(vfrtPath+".Thorough", func(in *Exec, _ *frame, a []value) value { return in.tb.Bool(in.W.X.Thorough) })
+	reg(vfrtPath+".GoroutineID", func(in *Exec, _ *frame, a []value) value {
+		if len(in.gids) == 0 {
+			return in.intConst(0)
+		}
+		return in.intConst(int64(in.gids[len(in.gids)-1]))
+	})
 	reg(vfrtPath+".Byte", func(in *Exec, _ *frame, a []value) value { return in.draw(conc(in, a[0], "label"), "byte", 8) })
 	reg(vfrtPath+".Bool", func(in *Exec, _ *frame, a []value) value { return in.draw(conc(in, a[0], "label"), "bool", 0) })
 	reg(vfrtPath+".Int", func(in *Exec, _ *frame, a []value) value { return in.draw(conc(in, a[0], "label"), "int", 64) })
